@@ -78,7 +78,7 @@ def coreExp : PExp → Bool
   | .int _ => true
   | .num t => isFloatText t
   | .bool _ => true
-  | .var n => !(n.contains '_')
+  | .var n => !(n.toList.contains '_')
   | .call n args => n != "range" && n.toList.all isLetter && coreList args
   | .un _ e => coreExp e
   | .bin _ l r => coreExp l && coreExp r
